@@ -189,6 +189,11 @@ pub fn render_log(log: &[Entry], skip_steps: bool, max: usize) -> String {
         .filter(|e| !(skip_steps && matches!(e.ev, Ev::Step { .. })))
         .map(render_entry)
         .collect();
+    // debugging aid: VERIF_LOG_HEAD=<n> shows the first n lines instead of the last `max`
+    if let Some(n) = std::env::var("VERIF_LOG_HEAD").ok().and_then(|v| v.parse::<usize>().ok()) {
+        lines.truncate(n);
+        return lines.join("\n");
+    }
     if lines.len() > max {
         let cut = lines.len() - max;
         lines.drain(..cut);
